@@ -67,4 +67,8 @@ def run(ctx, pid, lastcast=False, mask=True):
                                         formula="the last statement before the only return of _finalize_results casts the result to agg.dtype['final'] (every plan ends in this function)", detail=text,
                                         model=None if ok else {"last_statement": text})])
         n += 1
+    if mask:
+        from ..pyvc import conformance
+
+        conformance.add_to_ctx(ctx, ["get_indexer"])
     return f"_finalize_results: {n} obligations (count mask with the user's fill verbatim for every fill value, final reindex iff needed, last cast; reindex_numpy and reindex_: present labels keep their value, absent labels get the fill, ValueError only without a fill)."
